@@ -406,7 +406,8 @@ def replay(ctx, prop, select, judge, n_quick, n_thorough, workers=8, run_kwargs=
                 kw["trace"] = True
             obs = run_scenario(ws, scn, d / f"r{i}", **kw)
             if i < trace_sample:
-                obs["trace_ok"], obs["trace_info"] = validate_pipeline_trace(d / f"r{i}" / "trace.ndjson", f"{prop}.r{i}")
+                obs["trace_ok"], obs["trace_info"] = validate_pipeline_trace(
+                    d / f"r{i}" / "trace.ndjson", f"{prop}.r{i}", rc=None if obs["timed_out"] else obs["rc"])
             return scn, obs, d / f"r{i}"
 
         with ThreadPoolExecutor(max_workers=workers) as ex:
@@ -441,7 +442,7 @@ def replay(ctx, prop, select, judge, n_quick, n_thorough, workers=8, run_kwargs=
     return cov
 
 
-def validate_pipeline_trace(path, name):
+def validate_pipeline_trace(path, name, rc=None):
     """Validate the phase / scope-boundary events of one link against specs/Wild.tla (WildTrace).
     Events of the worker process only (the forking parent emits none)."""
     if not path.exists():
@@ -454,7 +455,10 @@ def validate_pipeline_trace(path, name):
         pids[e["pid"]] = pids.get(e["pid"], 0) + 1
     worker = max(pids, key=pids.get)
     p = path.with_suffix(".worker.ndjson")
-    p.write_text("\n".join(json.dumps(e) for e in evs if e["pid"] == worker) + "\n")
+    wevs = [e for e in evs if e["pid"] == worker]
+    if rc is not None:      # exit status seen by the caller of wild (None: not observed / killed by the harness)
+        wevs.append({"ev": "Exit", "rc": int(rc), "pid": worker, "tid": 0, "seq": 0})
+    p.write_text("\n".join(json.dumps(e) for e in wevs) + "\n")
     ok, info = tlc.validate_trace("WildTrace", "mc/WildTrace.cfg", p, timeout=300, name=f"wild.{name}")
     return ok, {k: info.get(k) for k in ("unmatched_index", "unmatched_event", "violated")}
 
